@@ -411,7 +411,9 @@ impl<'a, S: Clone + Bits> Annot<'a, S> {
                     _ => *i,
                 });
                 let (k, site, _) = Self::outcome_kind(&rec.outcome);
-                self.out.push(json!({"ev": "setpd", "pd": i + 1, "kind": k, "site": site}));
+                // (the new problem may live on another space: resolution and length unit are re-stated)
+                let (hl, hm, hr) = (self.u(self.g.lvs()), self.u(self.params.maxd), self.u(self.params.radius));
+                self.out.push(json!({"ev": "setpd", "pd": i + 1, "kind": k, "site": site, "lvs": hl, "maxd": hm, "rad": hr}));
             }
             (Call::SetParams(p), _) => {
                 // the public parameter fields were assigned: every later expectation uses the new values
